@@ -63,8 +63,6 @@ def scale_programs(tier='quick'):
         add(f'for-break-late-{n}', f'{VAR} s = 0;\n{FOR} ({VAR} i = 0; i < {n * 2}; i = i + 1) {{ {IF} (i == {n}) {BRK}; s = s + 1; }}\n{P} s;\n')
         add(f'return-late-{n}', f'{FUN} f() {{ {FOR} ({VAR} i = 0; i < {n * 2}; i = i + 1) {{ {IF} (i == {n}) {{ {RET} i; }} }} {RET} -1; }}\n{P} f();\n')
         add(f'error-late-{n}', f'{VAR} i = 0;\n{WHILE} (i < {n * 2}) {{ i = i + 1; {IF} (i == {n}) {{ {P} nope; }} }}\n{P} "after";\n')
-        if big:
-            add(f'calls-noreturn-{n * 4}', f'{VAR} c = 0;\n{FUN} bump() {{ c = c + 1; }}\n{FOR} ({VAR} i = 0; i < {n * 4}; i = i + 1) {{ bump(); }}\n{P} c;\n{FUN} id(x) {{ {RET} x; }}\n{P} id(7);\n')
         add(f'calls-{n}', f'{FUN} g(x) {{ {RET} x + 1; }}\n{VAR} v = 0;\n{FOR} ({VAR} i = 0; i < {n}; i = i + 1) {{ v = g(v); }}\n{P} v;\n')
     for n in ([200, 400] if not big else [100, 200, 400, 1000]):
         add(f'recursion-{n}', f'{FUN} sum(n) {{ {IF} (n == 0) {{ {RET} 0; }} {RET} n + sum(n - 1); }}\n{P} sum({n});\n')
